@@ -35,7 +35,7 @@ ASSUMPTIONS = [
 MIN_MONITOR = {"mon.mutant_inequality": 300, "mon.rebuild_equality": 20,
                "mon.pickle_crossprocess": 10, "mon.kind_field_pairs": 40}
 SHARD_TIMEOUT = {"quick": 900, "thorough": 7200}
-N_GRAPHS = {"quick": 160, "thorough": 3000}
+N_GRAPHS = {"quick": 400, "thorough": 4000}
 NODES_PER_GRAPH = {"quick": 14, "thorough": 30}
 
 # (node kind, field) pairs excluded from the inequality requirement, with the reason
